@@ -401,7 +401,7 @@ impl Request {
                     let content_length = parse_unsigned(&content_length, 10)
                         .map_err(Error::InvalidContentLength)?;
                     self.count_bytes(content_length)?;
-                    self.body.reserve(content_length);
+                    self.body.reserve(content_length.min(raw_message.len()));
                     self.state = RequestState::Body(content_length);
                     Ok((
                         ParseStatusInternal::CompletePart,
